@@ -317,6 +317,82 @@ def op_index_write(root):
     idx.write()
 
 
+def op_index_write_trailer_on_device(root):
+    """An index sized so that the 20-byte checksum trailer does not fit into what is left of the write
+    buffer: the write() of the trailer itself hits the device (and can fail), not the final flush."""
+    import io
+
+    from dulwich.index import Index, IndexEntry, write_index_dict
+
+    path = os.path.join(root, "wt", ".git", "index")
+    blk = getattr(os.stat(os.path.dirname(path)), "st_blksize", 4096) or 4096
+    idx = Index(path)
+    e = idx[b"a"]
+    for i in range(40):
+        idx[b"dir/file%04d" % i] = e
+    for pad in range(1, 4200):
+        name = b"pad/" + b"x" * pad
+        idx[name] = e
+        buf = io.BytesIO()
+        write_index_dict(buf, dict(idx._byname), version=idx._version)
+        if blk - 20 < buf.tell() % blk:
+            break
+        del idx[name]
+    else:
+        raise HarnessError("could not size the index so that its trailer straddles the write buffer")
+    idx.write()
+
+
+def op_locked_index(root):
+    from dulwich.index import locked_index
+
+    with locked_index(os.path.join(root, "wt", ".git", "index")) as idx:
+        e = idx[b"a"]
+        for i in range(300):
+            idx[b"dir/file%04d" % i] = e
+
+
+def op_locked_index_trailer_on_device(root):
+    import io
+
+    from dulwich.index import locked_index, write_index_dict
+
+    path = os.path.join(root, "wt", ".git", "index")
+    blk = getattr(os.stat(os.path.dirname(path)), "st_blksize", 4096) or 4096
+    with locked_index(path) as idx:
+        e = idx[b"a"]
+        for i in range(40):
+            idx[b"dir/file%04d" % i] = e
+        for pad in range(1, 4200):
+            name = b"pad/" + b"x" * pad
+            idx[name] = e
+            buf = io.BytesIO()
+            write_index_dict(buf, dict(idx._byname))
+            if blk - 20 < buf.tell() % blk:
+                break
+            del idx[name]
+        else:
+            raise HarnessError("could not size the index so that its trailer straddles the write buffer")
+
+
+def _mkrepo_shared(root):
+    _mkrepo(root)
+    from dulwich.config import ConfigFile
+
+    path = os.path.join(root, "wt", ".git", "config")
+    cf = ConfigFile.from_path(path)
+    cf.set((b"core",), b"sharedRepository", b"group")
+    cf.write_to_path(path)
+
+
+def op_shallow_shared(root):
+    old = os.umask(0o022)  # files are created 0644, "group" asks for 0664: a chmod is needed
+    try:
+        return op_shallow(root)
+    finally:
+        os.umask(old)
+
+
 def op_set_if_equals(root):
     b, t, c, c2 = _ids(root)
     return _refs(root).set_if_equals(b"refs/heads/master", c, c2)
@@ -434,6 +510,10 @@ FAULT_SCENARIOS = {
     "GitFile.with": (_mkrepo, op_gitfile_with),
     "GitFile.close": (_mkrepo, op_gitfile_close),
     "Index.write": (_mkrepo, op_index_write),
+    "Index.write(trailer write hits the device)": (_mkrepo, op_index_write_trailer_on_device),
+    "Repo.update_shallow(sharedRepository)": (_mkrepo_shared, op_shallow_shared),
+    "locked_index": (_mkrepo, op_locked_index),
+    "locked_index(trailer write hits the device)": (_mkrepo, op_locked_index_trailer_on_device),
     "refs.set_if_equals": (_mkrepo, op_set_if_equals),
     "refs.set_if_equals(packed)": (_mkrepo, op_set_packed_ref),
     "refs.add_if_new": (_mkrepo, op_add_if_new),
@@ -464,10 +544,15 @@ def _is_temp(rel):
     return base.startswith("tmp") or ".tmp" in base or base.startswith(".tmp")
 
 
-def _judge_fault(name, old, new, now, outcome, fault_desc, protected=None):
+def _judge_fault(name, old, new, now, outcome, fault_desc, protected=None, failed_write_of=None):
     """Statement clauses: protected files are whole-old or whole-new; lock released; a write
-    reported as successful really happened."""
+    reported as successful really happened; a write that fails leaves the old content in place
+    (failed_write_of: protected file whose own write protocol received the OSError)."""
     out = []
+    if failed_write_of is not None and outcome[0] == "exc" and now.get(failed_write_of) != old.get(failed_write_of):
+        out.append(("fault:%s:failed-write-replaced-the-target" % name,
+                    "%s: %s propagated to the caller after %s, yet %s already has its new content" % (
+                        name, outcome[1].split(":")[0], fault_desc, failed_write_of)))
     for rel in sorted(set(old) | set(new) | set(now)):
         o, n, c = old.get(rel), new.get(rel), now.get(rel)
         if rel.endswith(".lock"):
@@ -563,7 +648,12 @@ def _fault_one(acc, en, name, op, idx, kind, idx2=None, base=None):
                       rp(case_fault, name, idx, kind, idx2))
     acc.count("fault_executions")
     acc.outcome("fault:%s:%s:%s" % (name, site[0], outcome[0] if outcome[0] != "exc" else "exc:" + outcome[1].split(":")[0]))
-    for key, summary in _judge_fault(name, old, new, now, outcome, desc, protected):
+    failed_write_of = None
+    if kind != "KeyboardInterrupt" and idx2 is None and idx < len(steps):
+        tgt = site[1][: -len(".lock")] if site[1].endswith(".lock") else site[1]
+        if tgt in protected:
+            failed_write_of = tgt
+    for key, summary in _judge_fault(name, old, new, now, outcome, desc, protected, failed_write_of):
         acc.violation(key, summary, rp(case_fault, name, idx, kind, idx2))
 
 
@@ -616,6 +706,31 @@ def work_faults(task):
 # =========================================================================== (2) real writers racing
 
 
+def _readable(root):
+    """None, or (file, why) if a fresh reader cannot load one of the protected files."""
+    from dulwich.config import ConfigFile
+    from dulwich.index import Index
+    from dulwich.refs import DiskRefsContainer
+
+    g = os.path.join(root, "wt", ".git")
+    steps = [
+        ("packed-refs/refs", lambda: dict(DiskRefsContainer(g).as_dict())),
+        ("packed-refs", lambda: DiskRefsContainer(g).get_packed_refs()),
+        ("index", lambda: Index(os.path.join(g, "index"))),
+        ("config", lambda: ConfigFile.from_path(os.path.join(g, "config"))),
+    ]
+    for what, fn in steps:
+        try:
+            fn()
+        except BaseException as e:  # StopIteration from an empty packed-refs included
+            return what, "%s: %s" % (type(e).__name__, str(e)[:100])
+    for rel in ("shallow", "description", os.path.join("objects", "info", "alternates")):
+        p = os.path.join(g, rel)
+        if os.path.exists(p) and os.path.getsize(p) == 0:
+            return rel, "zero-length file"
+    return None
+
+
 class WritersScenario(sysched.Scenario):
     """Real dulwich writers (ops from FAULT_SCENARIOS) racing on one repository."""
 
@@ -662,6 +777,13 @@ class WritersScenario(sysched.Scenario):
             for f in files:
                 if f.endswith(".lock"):
                     out.append(("lock:left-behind", "%s exists after all writers finished" % os.path.relpath(os.path.join(d, f), root)))
+        # all-or-nothing replacement: whatever the writers did, every protected file is a complete file of
+        # its kind afterwards (a fresh reader can load it).  NOT demanded: equality with a sequential run —
+        # a writer that lost the race for a lock is a no-op and a packer may skip a ref that is being deleted,
+        # so non-sequential but perfectly valid contents exist (lost updates are property C08's business).
+        why = _readable(root)
+        if why:
+            out.append(("writers:%s:unreadable-after-race" % why[0], "%s after %s: %s" % (why[0], " || ".join(self.names), why[1])))
         ex.extra["outcome"] = ",".join("%d:%s" % (a, k if k != "exc" else "exc:" + (pl or "").split(":")[0]) for a, k, pl, _ in ex.history)
         return out
 
@@ -672,6 +794,9 @@ WRITER_PAIRS = [
     ("refs.set_if_equals(packed)", "refs.pack_refs"),
     ("refs.remove_if_equals(loose+packed)", "refs.pack_refs"),
     ("refs.remove_if_equals(packed)", "refs.set_if_equals(packed)"),
+    ("refs.remove_if_equals(packed)", "refs.remove_if_equals(packed)"),
+    ("refs.remove_if_equals(packed)", "refs.add_packed_refs"),
+    ("refs.remove_if_equals(loose+packed)", "refs.remove_if_equals(loose+packed)"),
     ("refs.add_packed_refs", "refs.pack_refs"),
     ("refs.set_symbolic_ref", "refs.set_symbolic_ref"),
     ("ConfigFile.write_to_path", "ConfigFile.write_to_path"),
